@@ -377,6 +377,8 @@ def run(rep, tier):
         vl = c02.widest_load(facts, ('quote.inc.h',))
         c02.clause_d(facts, rep, w, vl)
         clause_e(facts, rep)
+        from .. import ws_table
+        ws_table.check(facts, rep)
     rep.extra['traces_validated_against_impl'] = 0
     rep.trust('clang 14 parser/template instantiation/CFG builder/constant evaluator',
               'hand-written RFC 8259 reference transducer in sv/e6_vpa.py (ref_step)',
